@@ -438,6 +438,10 @@ func (e *Exec) valFromWin(orig Value, b []*Term, off, n *Term) Value {
 	case *StringV:
 		return &StringV{B: x.B, Off: off, Len: n, Alias: x.Alias}
 	case *SliceV:
+		if isNil(x) {
+			// a window of a nil slice is the nil slice (nil[:0:0])
+			return x
+		}
 		capv := e.ctx.Sub(e.ctx.Add(x.Off, x.Cap), off)
 		return &SliceV{Arr: x.Arr, Off: off, Len: n, Cap: capv}
 	}
